@@ -264,3 +264,69 @@ def good_numbers(mod):
 
 def vector_nodes(tier='quick'):
     return check(tier, 0)
+
+
+def estimate_opts(tier='quick', seed=0):
+    """emg3d.meshes.estimate_gridding_opts on real models / surveys, only what the statement needs: provided options are handed on unchanged
+    (3-sequences as x/y/z dicts) so that the requested buffer / stretching / cell numbers are the ones used, the estimated survey domain contains
+    every source and receiver, and the mesh construct_mesh builds from the estimate covers the survey.  (How frequency, centre and buffer
+    properties are estimated is documented behaviour, not part of the statement, and is not checked.)"""
+    import emg3d
+    rng = np.random.default_rng(seed)
+    n = 0
+
+    def fail(**kw):
+        kw.update(reproduced=True, cases=n, how='contracts.c16_concrete.estimate_opts on the real emg3d.meshes.estimate_gridding_opts')
+        return kw
+    for k in range(6 if tier == 'quick' else 30):
+        n += 1
+        shape = [int(x) for x in rng.integers(4, 9, 3)]
+        h = [rng.uniform(80, 250, m) for m in shape]
+        grid = emg3d.TensorMesh(h, origin=(-sum(h[0]) / 2, -sum(h[1]) / 2, -sum(h[2]) * 0.8))
+        mapping = ['Resistivity', 'Conductivity', 'LgResistivity', 'LnConductivity'][k % 4]
+        mp = getattr(emg3d.maps, 'Map' + mapping)()
+        sig = 10 ** rng.uniform(-3, 0.5, shape)
+        kw = dict(property_x=mp.forward(sig), mapping=mapping)
+        sigz = None
+        if k % 2:
+            sigz = 10 ** rng.uniform(-3, 0.5, shape)
+            kw['property_z'] = mp.forward(sigz)
+        model = emg3d.Model(grid, **kw)
+        nsrc, nrec = int(rng.integers(1, 4)), int(rng.integers(1, 5))
+        ext = [0.3 * sum(h[0]), 0.3 * sum(h[1]) * (0.05 if k % 3 == 0 else 1.0), 0.2 * sum(h[2])]
+        src = {f'TxED-{i + 1}': emg3d.TxElectricDipole((*(rng.uniform(-1, 1, 3) * ext + [0, 0, -0.3 * sum(h[2])]), 10.0 * i, 5.0)) for i in range(nsrc)}
+        rec = {f'RxEP-{i + 1}': emg3d.RxElectricPoint((*(rng.uniform(-1, 1, 3) * ext + [0, 0, -0.3 * sum(h[2])]), 0.0, 0.0)) for i in range(nrec)}
+        freqs = sorted((10 ** rng.uniform(-1, 1, int(rng.integers(1, 4)))).tolist())
+        survey = emg3d.Survey(sources=src, receivers=rec, frequencies=freqs)
+        given = dict(lambda_factor=0.7, max_buffer=30000.0, stretching=[1.0, 1.4], cell_numbers=[8, 16, 32, 64, 128], center_on_edge=(True, False, True),
+                     min_width_pps=[3, 4, 5])
+        try:
+            g = emg3d.meshes.estimate_gridding_opts(dict(given), model, survey)
+        except Exception as e:
+            return fail(clause='estimate_gridding_opts raised on valid input', exception=f'{type(e).__name__}: {e}')
+        for key in ('lambda_factor', 'max_buffer', 'cell_numbers', 'stretching'):
+            if g.get(key) != given[key]:
+                return fail(clause=f'provided option {key} is not handed on unchanged', got=str(g.get(key)))
+        for key in ('center_on_edge', 'min_width_pps'):
+            if g.get(key) != dict(zip('xyz', given[key])):
+                return fail(clause=f'provided 3-sequence {key} is not handed on as x/y/z dict', got=str(g.get(key)))
+        if g['mapping'] != mapping:
+            return fail(clause='mapping is not the model mapping', got=str(g['mapping']))
+        pts = np.array([s.center for s in src.values()] + [r.center for r in rec.values()])
+        for i, d in enumerate('xyz'):
+            lo, hi = g['domain'][d]
+            if lo > pts[:, i].min() + 1e-9 or hi < pts[:, i].max() - 1e-9:
+                return fail(clause=f'estimated domain in {d} does not contain all sources and receivers', domain=[float(lo), float(hi)],
+                            extent=[float(pts[:, i].min()), float(pts[:, i].max())])
+        # the mesh built from the estimate covers the survey
+        with warnings.catch_warnings():
+            warnings.simplefilter('ignore')
+            try:
+                mesh = emg3d.construct_mesh(**g)
+            except RuntimeError:
+                continue
+        nodes = [mesh.nodes_x, mesh.nodes_y, mesh.nodes_z]
+        for i, d in enumerate('xyz'):
+            if nodes[i][0] > pts[:, i].min() or nodes[i][-1] < pts[:, i].max():
+                return fail(clause=f'mesh built from the estimated options does not cover the survey in {d}')
+    return dict(reproduced=False, cases=n)
